@@ -70,13 +70,13 @@ IntoF64(ty, a, b) ==
     [] ty \in IntTypes       -> 4 * a
     [] OTHER                 -> a
 
-Max(x, y) == IF x >= y THEN x ELSE y
+MaxOf(x, y) == IF x >= y THEN x ELSE y
 
 GApply(op, g, v) == CASE op = "inc" -> Add(g, v) [] op = "dec" -> Sub(g, v) [] op = "set" -> v
 
 (* delivery bag: function value -> copies *)
 BagAdd(B, v, k) == IF k = 0 THEN B ELSE IF v \in DOMAIN B THEN [B EXCEPT ![v] = @ + k] ELSE B @@ (v :> k)
-EmptyBag == [x \in {} |-> 0]
+NoBag == [x \in {} |-> 0]
 \* the default impl of HistogramFn::record_many:  for _ in 0..count { self.record(value) }
 RECURSIVE LoopRec(_, _, _, _)
 LoopRec(B, v, i, n) == IF i >= n THEN B ELSE LoopRec(BagAdd(B, v, 1), v, i + 1, n)
@@ -99,38 +99,39 @@ VARIABLES
 
 vars == <<cval, hlog, hcalls, nops, pc, ld, cur, ref, cinc, cmax, conly, cnowrap, absok, setok, hexp>>
 
-NoOp == Op(0, "-", "-", 0, 0, 0)
-
-Init ==
-  /\ cval = [c \in ACells |-> 0]
-  /\ hlog = [c \in HCells |-> EmptyBag] /\ hcalls = [c \in HCells |-> 0]
-  /\ nops = [t \in Threads |-> 0]
-  /\ pc = [t \in Threads |-> "idle"] /\ ld = [t \in Threads |-> 0] /\ cur = [t \in Threads |-> NoOp]
-  /\ ref = [c \in GCells |-> 0]
-  /\ cinc = [c \in CCells |-> 0] /\ cmax = [c \in CCells |-> 0]
-  /\ conly = [c \in CCells |-> TRUE] /\ cnowrap = [c \in CCells |-> TRUE]
-  /\ absok = TRUE /\ setok = TRUE
-  /\ hexp = [c \in HCells |-> EmptyBag]
-
 WellFormed(o) ==
   /\ o.h \in Handles
   /\ CASE HT[o.h].kind = "counter" -> o.op \in {"inc", "abs"} /\ o.a \in 0..(W-1)
        [] HT[o.h].kind = "gauge"   -> o.op \in {"inc", "dec", "set"}
        [] HT[o.h].kind = "hist"    -> o.op \in {"rec", "many"} /\ o.n >= 0
 
+NoOp == Op(0, "-", "-", 0, 0, 0)
+
+Init ==
+  /\ cval = [c \in ACells |-> 0]
+  /\ hlog = [c \in HCells |-> NoBag] /\ hcalls = [c \in HCells |-> 0]
+  /\ nops = [t \in Threads |-> 0]
+  /\ pc = [t \in Threads |-> "idle"] /\ ld = [t \in Threads |-> 0] /\ cur = [t \in Threads |-> NoOp]
+  /\ ref = [c \in GCells |-> 0]
+  /\ cinc = [c \in CCells |-> 0] /\ cmax = [c \in CCells |-> 0]
+  /\ conly = [c \in CCells |-> TRUE] /\ cnowrap = [c \in CCells |-> TRUE]
+  /\ absok = TRUE /\ setok = TRUE
+  /\ hexp = [c \in HCells |-> NoBag]
+  /\ \A o \in Alphabet : WellFormed(o)
+
 Fin(t) == /\ nops' = [nops EXCEPT ![t] = @ + 1]
 Idle(t) == pc[t] = "idle" /\ nops[t] < MaxOps
 
 \* ---- no-op handle: inner = None, nothing happens
 NoopOp(t, o) ==
-  /\ Idle(t) /\ WellFormed(o) /\ HT[o.h].cell = 0
+  /\ Idle(t) /\ HT[o.h].cell = 0
   /\ Fin(t)
   /\ UNCHANGED <<cval, hlog, hcalls, pc, ld, cur, ref, cinc, cmax, conly, cnowrap, absok, setok, hexp>>
 
 \* ---- Counter::increment -> AtomicU64::fetch_add (wrapping)
 CInc(t, o) ==
   LET c == HT[o.h].cell IN
-  /\ Idle(t) /\ WellFormed(o) /\ HT[o.h].kind = "counter" /\ c # 0 /\ o.op = "inc"
+  /\ Idle(t) /\ o.op = "inc" /\ HT[o.h].kind = "counter" /\ c # 0
   /\ cval' = [cval EXCEPT ![c] = (@ + o.a) % W]
   /\ cinc' = [cinc EXCEPT ![c] = (@ + o.a) % W]
   /\ cnowrap' = [cnowrap EXCEPT ![c] = @ /\ cval[c] + o.a < W]
@@ -140,9 +141,9 @@ CInc(t, o) ==
 \* ---- Counter::absolute -> AtomicU64::fetch_max
 CAbs(t, o) ==
   LET c == HT[o.h].cell IN
-  /\ Idle(t) /\ WellFormed(o) /\ HT[o.h].kind = "counter" /\ c # 0 /\ o.op = "abs"
-  /\ cval' = [cval EXCEPT ![c] = Max(@, o.a)]
-  /\ cmax' = [cmax EXCEPT ![c] = Max(@, o.a)]
+  /\ Idle(t) /\ o.op = "abs" /\ HT[o.h].kind = "counter" /\ c # 0
+  /\ cval' = [cval EXCEPT ![c] = MaxOf(@, o.a)]
+  /\ cmax' = [cmax EXCEPT ![c] = MaxOf(@, o.a)]
   /\ conly' = [conly EXCEPT ![c] = FALSE]
   /\ absok' = (absok /\ cval'[c] >= cval[c] /\ cval'[c] >= o.a)
   /\ Fin(t)
@@ -152,7 +153,7 @@ CAbs(t, o) ==
 GAtomic(t, o) ==
   LET c == HT[o.h].cell
       v == IntoF64(o.ty, o.a, o.b) IN
-  /\ Idle(t) /\ WellFormed(o) /\ HT[o.h].kind = "gauge" /\ c # 0
+  /\ Idle(t) /\ HT[o.h].kind = "gauge" /\ c # 0
   /\ (o.op = "set" \/ ~FineCas)
   /\ cval' = [cval EXCEPT ![c] = GApply(o.op, @, v)]
   /\ ref' = [ref EXCEPT ![c] = GApply(o.op, @, v)]
@@ -163,31 +164,32 @@ GAtomic(t, o) ==
 \* ---- FineCas: fetch_update = load; loop { compare_exchange_weak(prev, f(prev)) }
 GLoad(t, o) ==
   LET c == HT[o.h].cell IN
-  /\ FineCas /\ Idle(t) /\ WellFormed(o) /\ HT[o.h].kind = "gauge" /\ c # 0 /\ o.op \in {"inc", "dec"}
+  /\ FineCas /\ Idle(t) /\ o.op \in {"inc", "dec"} /\ HT[o.h].kind = "gauge" /\ c # 0
   /\ pc' = [pc EXCEPT ![t] = "cas"] /\ ld' = [ld EXCEPT ![t] = cval[c]] /\ cur' = [cur EXCEPT ![t] = o]
   /\ UNCHANGED <<cval, hlog, hcalls, nops, ref, cinc, cmax, conly, cnowrap, absok, setok, hexp>>
 
 GCas(t) ==
   LET o == cur[t]
       c == HT[o.h].cell
-      v == IntoF64(o.ty, o.a, o.b) IN
+      v == IntoF64(o.ty, o.a, o.b)
+      Done == pc' = [pc EXCEPT ![t] = "idle"] /\ ld' = [ld EXCEPT ![t] = 0] /\ cur' = [cur EXCEPT ![t] = NoOp] /\ Fin(t) IN
   /\ pc[t] = "cas"
   /\ IF cval[c] = ld[t]
        THEN /\ cval' = [cval EXCEPT ![c] = GApply(o.op, ld[t], v)]     \* success: the linearization point
             /\ ref' = [ref EXCEPT ![c] = GApply(o.op, @, v)]
-            /\ pc' = [pc EXCEPT ![t] = "idle"] /\ Fin(t) /\ UNCHANGED ld
+            /\ Done
        ELSE IF Retry
          THEN /\ ld' = [ld EXCEPT ![t] = cval[c]]                       \* failure returns the current value; retry
-              /\ UNCHANGED <<cval, ref, pc, nops>>
+              /\ UNCHANGED <<cval, ref, pc, nops, cur>>
          ELSE /\ ref' = [ref EXCEPT ![c] = GApply(o.op, @, v)]          \* witness: the call returns, update lost
-              /\ pc' = [pc EXCEPT ![t] = "idle"] /\ Fin(t) /\ UNCHANGED <<cval, ld>>
-  /\ UNCHANGED <<hlog, hcalls, cur, cinc, cmax, conly, cnowrap, absok, setok, hexp>>
+              /\ Done /\ UNCHANGED cval
+  /\ UNCHANGED <<hlog, hcalls, cinc, cmax, conly, cnowrap, absok, setok, hexp>>
 
 \* ---- Histogram::record / record_many
 HRec(t, o) ==
   LET c == HT[o.h].cell
       v == IntoF64(o.ty, o.a, o.b) IN
-  /\ Idle(t) /\ WellFormed(o) /\ HT[o.h].kind = "hist" /\ c # 0 /\ o.op = "rec"
+  /\ Idle(t) /\ o.op = "rec" /\ HT[o.h].kind = "hist" /\ c # 0
   /\ hlog' = [hlog EXCEPT ![c] = BagAdd(@, v, 1)]
   /\ hcalls' = [hcalls EXCEPT ![c] = @ + 1]
   /\ hexp' = [hexp EXCEPT ![c] = BagAdd(@, v, 1)]
@@ -199,7 +201,7 @@ HRec(t, o) ==
 HMany(t, o) ==
   LET c == HT[o.h].cell
       v == IntoF64(o.ty, o.a, o.b) IN
-  /\ Idle(t) /\ WellFormed(o) /\ HT[o.h].kind = "hist" /\ c # 0 /\ o.op = "many"
+  /\ Idle(t) /\ o.op = "many" /\ HT[o.h].kind = "hist" /\ c # 0
   /\ hlog' = [hlog EXCEPT ![c] = IF HT[o.h].shape = "many" THEN BagAdd(@, v, o.n) ELSE LoopRec(@, v, 0, o.n)]
   /\ hcalls' = [hcalls EXCEPT ![c] = @ + (IF HT[o.h].shape = "many" THEN 1 ELSE o.n)]
   /\ hexp' = [hexp EXCEPT ![c] = BagAdd(@, v, o.n)]
